@@ -1,0 +1,18 @@
+//go:build verif
+
+package memoization
+
+import "context"
+
+// VerifYield, when set, is called at the internal steps of the memoizer that
+// lie outside its critical sections (build tag "verif" only): after the cache
+// has been cleared and after the write has been forwarded on the write path;
+// after the cache lookup (hit or miss), after the forwarded read has been
+// drained and after the result has been cached on the read path.
+var VerifYield func(ctx context.Context, point string)
+
+func verifYield(ctx context.Context, point string) {
+	if f := VerifYield; f != nil {
+		f(ctx, point)
+	}
+}
